@@ -48,7 +48,7 @@ class CallGen:
         r = self.r
         if env and r.random() < 0.35 and depth < 3:
             name, cls = r.choice(env)
-            return self.method_call(N(name), N(name), cls, r.choice(["m0", "m1", "m2", "m3"]), env, depth, allow_missing=False)
+            return self.method_call(N(name), N(name), cls, r.choice(["m0", "m1", "m2", "m3", "gen"]), env, depth, allow_missing=False)
         v = r.choice([1, 2, 0.5, 10, True])
         if r.random() < 0.15:
             return ast.UnaryOp(op=ast.USub(), operand=C(3)), ast.UnaryOp(op=ast.USub(), operand=C(3))
@@ -111,7 +111,7 @@ class CallGen:
         k = r.random()
         name, cls = r.choice(env)
         if k < 0.45 or depth >= 3:
-            return self.method_call(N(name), N(name), cls, r.choice(["m0", "m1", "m2", "m3"]), env, depth)
+            return self.method_call(N(name), N(name), cls, r.choice(["m0", "m1", "m2", "m3", "gen"]), env, depth)
         if k < 0.55:
             return self.func_call(env, depth)
         if k < 0.7:
@@ -120,7 +120,7 @@ class CallGen:
             return ast.BinOp(left=a, op=op, right=b), ast.BinOp(left=ax, op=op, right=bx)
         colls = self.m.COLLS[cls]
         if not colls:
-            return self.method_call(N(name), N(name), cls, r.choice(["m0", "m1", "m2", "m3"]), env, depth)
+            return self.method_call(N(name), N(name), cls, r.choice(["m0", "m1", "m2", "m3", "gen"]), env, depth)
         cm = r.choice(colls)
         cu, cx = self.method_call(N(name), N(name), cls, cm, env, depth)
         elem = self.m.ELEM[cm]
